@@ -1,6 +1,7 @@
 import FM.Base.Codec
 import FM.Model.Wrap
 import FM.Model.Sentence
+import FM.Model.Frontmatter
 /-
   One operation per input line, one canonical answer per output line.
 -/
@@ -42,6 +43,17 @@ def step (line : String) : String :=
       match decStr i0, decStr t with
       | some i0, some t => encStr (sentNoWrap i0 t)
       | _, _ => bad
+  | ["frontmatter", t] => match decStr t with
+      | some t => let (a, b) := splitFrontmatter t; encList [a, b]
+      | none => bad
+  | ["fmshell", t] => match decStr t with
+      | some t =>
+          let stub : Str := "<B>".toList
+          let (fm, content) := splitFrontmatter t
+          let handed : Str := if fm.isEmpty then t
+            else if content.isEmpty && delimCount fm < 2 then "<none>".toList else content
+          encList [handed, fillShell (fun _ => stub) t]
+      | none => bad
   | _ => bad
 
 partial def loop (hin hout : IO.FS.Stream) : IO Unit := do
